@@ -43,6 +43,10 @@ CONSTANTS NP,          \* number of AudioThread objects that may be created
 Players == 1..NP
 MainId  == 0
 
+\* labels of a player that will test `halting` before it writes again: just after a write_stream call, and from
+\* stop_stream to the test after go.wait() (not p2: `self.halting or not self.go.is_set()` has read halting already)
+PastWrite == {"p1h", "p3", "p4", "p5", "p5h"}
+
 (* --algorithm AudioIO {
 variables
   mgrLock = -1, haltLock = -1,                 \* -1 free, else holder
@@ -66,7 +70,11 @@ variables
   playRaised = FALSE,                          \* play() after close raised
   aliveAtClose = {},                           \* players alive when close() returned
   openAtClose = {},                            \* device streams not closed when close() returned
-  faulted = [t \in Players |-> FALSE];         \* the player's run loop was left by an exception
+  faulted = [t \in Players |-> FALSE],         \* the player's run loop was left by an exception
+  userStopped = [t \in Players |-> FALSE],
+  lateW = [t \in Players |-> 0],               \* (ghost) chunks written after the stop message was set
+  noMore = [t \in Players |-> FALSE],          \* (ghost) the stop message came between a write and the next start_stream
+  closes = 0;                                  \* completed close() calls     \* (ghost) the CALLER asked this player to stop (not close() itself)
 
 define {
   Started      == {t \in Players : started[t]}
@@ -114,7 +122,9 @@ re3:  Release(thrLock[tgt]);
       with (t \in Started) { tgt := t };
       nctl := nctl + 1;
 st1:  Acquire(thrLock[tgt], MainId);
-st2:  halting[tgt] := TRUE;                              \* self.halting = True
+st2:  if (~halting[tgt]) { noMore[tgt] := pc[tgt] \in PastWrite };
+      halting[tgt] := TRUE;                              \* self.halting = True
+      userStopped[tgt] := TRUE;
 st3:  if (StopWakes) { go[tgt] := TRUE; if (pc[tgt] = "p5") { released[tgt] := TRUE } }
       else { go[tgt] := FALSE };                         \* self.go.clear()  (fixed: set)
 st4:  Release(thrLock[tgt]);
@@ -133,7 +143,8 @@ c3s:      Release(mgrLock);
         };
 c4:     if (~Wait) {                                     \* if not self.wait: thread.stop()
 cs1:      Acquire(thrLock[th], MainId);
-cs2:      halting[th] := TRUE;
+cs2:      if (~halting[th]) { noMore[th] := pc[th] \in PastWrite };
+          halting[th] := TRUE;
 cs3:      if (StopWakes) { go[th] := TRUE; if (pc[th] = "p5") { released[th] := TRUE } }
           else { go[th] := FALSE };
 cs4:      Release(thrLock[th]);
@@ -151,12 +162,15 @@ c9:     openAtClose := {t \in Started : sstate[t] # "closed"};   \* assert not s
       };
 c10:  Release(haltLock);
       closed := TRUE;
+      closes := closes + 1;
       aliveAtClose := {t \in Players : alive[t]};
       \* ---- afterwards: play must raise
 ap1:  Acquire(mgrLock, MainId);
 ap2:  if (finished) { playRaised := TRUE };
 ap3:  Release(mgrLock);
-      goto Fin;
+      \* ---- and a second close() (what leaving the with-block after an explicit close() does) runs the same
+      \* code: it finds `finished` set and does nothing
+      if (closes < 2) { goto c0 } else { goto Fin };
     }
   };
 Fin: skip;
@@ -170,6 +184,7 @@ p1: while (idx < NChunks[self]) {                        \* for chunk in chunks(
 p1w:  either {
         idx := idx + 1;
         if (sstate[self] # "open") { badWrite := TRUE };
+        if (halting[self]) { lateW[self] := lateW[self] + 1 };
         written[self] := Append(written[self], idx);     \*   write_stream(st, chunk, ...)
       } or {                                             \*   ... raises (device error, audio iterable raising)
         await Faults /\ ~faulted[self];
@@ -203,7 +218,7 @@ p13: alive[self] := FALSE;                               \* run() returns, the t
 VARIABLES pc, mgrLock, haltLock, thrLock, go, released, halting, finished, 
           threads, finishing, started, alive, written, sstate, terminated, 
           badWrite, nctl, closed, playRaised, aliveAtClose, openAtClose, 
-          faulted
+          faulted, userStopped, lateW, noMore, closes
 
 (* define statement *)
 Started      == {t \in Players : started[t]}
@@ -214,7 +229,8 @@ VARIABLES tgt, th, tojoin, idx
 vars == << pc, mgrLock, haltLock, thrLock, go, released, halting, finished, 
            threads, finishing, started, alive, written, sstate, terminated, 
            badWrite, nctl, closed, playRaised, aliveAtClose, openAtClose, 
-           faulted, tgt, th, tojoin, idx >>
+           faulted, userStopped, lateW, noMore, closes, tgt, th, tojoin, idx
+        >>
 
 ProcSet == {MainId} \cup (Players)
 
@@ -240,6 +256,10 @@ Init == (* Global variables *)
         /\ aliveAtClose = {}
         /\ openAtClose = {}
         /\ faulted = [t \in Players |-> FALSE]
+        /\ userStopped = [t \in Players |-> FALSE]
+        /\ lateW = [t \in Players |-> 0]
+        /\ noMore = [t \in Players |-> FALSE]
+        /\ closes = 0
         (* Process Main *)
         /\ tgt = 0
         /\ th = 0
@@ -279,7 +299,8 @@ ctl == /\ pc[MainId] = "ctl"
        /\ UNCHANGED << mgrLock, haltLock, thrLock, go, released, halting, 
                        finished, threads, finishing, started, alive, written, 
                        sstate, terminated, badWrite, closed, playRaised, 
-                       aliveAtClose, openAtClose, faulted, th, tojoin, idx >>
+                       aliveAtClose, openAtClose, faulted, userStopped, lateW, 
+                       noMore, closes, th, tojoin, idx >>
 
 mp1 == /\ pc[MainId] = "mp1"
        /\ mgrLock = -1
@@ -288,8 +309,8 @@ mp1 == /\ pc[MainId] = "mp1"
        /\ UNCHANGED << haltLock, thrLock, go, released, halting, finished, 
                        threads, finishing, started, alive, written, sstate, 
                        terminated, badWrite, nctl, closed, playRaised, 
-                       aliveAtClose, openAtClose, faulted, tgt, th, tojoin, 
-                       idx >>
+                       aliveAtClose, openAtClose, faulted, userStopped, lateW, 
+                       noMore, closes, tgt, th, tojoin, idx >>
 
 mp2 == /\ pc[MainId] = "mp2"
        /\ IF finished
@@ -298,8 +319,8 @@ mp2 == /\ pc[MainId] = "mp2"
        /\ UNCHANGED << mgrLock, haltLock, thrLock, go, released, halting, 
                        finished, threads, finishing, started, alive, written, 
                        sstate, terminated, badWrite, nctl, closed, playRaised, 
-                       aliveAtClose, openAtClose, faulted, tgt, th, tojoin, 
-                       idx >>
+                       aliveAtClose, openAtClose, faulted, userStopped, lateW, 
+                       noMore, closes, tgt, th, tojoin, idx >>
 
 mpE == /\ pc[MainId] = "mpE"
        /\ mgrLock' = -1
@@ -308,7 +329,8 @@ mpE == /\ pc[MainId] = "mpE"
        /\ UNCHANGED << haltLock, thrLock, go, released, halting, finished, 
                        threads, finishing, started, alive, written, sstate, 
                        terminated, badWrite, nctl, closed, aliveAtClose, 
-                       openAtClose, faulted, tgt, th, tojoin, idx >>
+                       openAtClose, faulted, userStopped, lateW, noMore, 
+                       closes, tgt, th, tojoin, idx >>
 
 mp3 == /\ pc[MainId] = "mp3"
        /\ sstate' = [sstate EXCEPT ![tgt] = "open"]
@@ -316,8 +338,8 @@ mp3 == /\ pc[MainId] = "mp3"
        /\ UNCHANGED << mgrLock, haltLock, thrLock, go, released, halting, 
                        finished, threads, finishing, started, alive, written, 
                        terminated, badWrite, nctl, closed, playRaised, 
-                       aliveAtClose, openAtClose, faulted, tgt, th, tojoin, 
-                       idx >>
+                       aliveAtClose, openAtClose, faulted, userStopped, lateW, 
+                       noMore, closes, tgt, th, tojoin, idx >>
 
 mp4 == /\ pc[MainId] = "mp4"
        /\ threads' = Append(threads, tgt)
@@ -325,8 +347,8 @@ mp4 == /\ pc[MainId] = "mp4"
        /\ UNCHANGED << mgrLock, haltLock, thrLock, go, released, halting, 
                        finished, finishing, started, alive, written, sstate, 
                        terminated, badWrite, nctl, closed, playRaised, 
-                       aliveAtClose, openAtClose, faulted, tgt, th, tojoin, 
-                       idx >>
+                       aliveAtClose, openAtClose, faulted, userStopped, lateW, 
+                       noMore, closes, tgt, th, tojoin, idx >>
 
 mp5 == /\ pc[MainId] = "mp5"
        /\ started' = [started EXCEPT ![tgt] = TRUE]
@@ -335,8 +357,8 @@ mp5 == /\ pc[MainId] = "mp5"
        /\ UNCHANGED << mgrLock, haltLock, thrLock, go, released, halting, 
                        finished, threads, finishing, written, sstate, 
                        terminated, badWrite, nctl, closed, playRaised, 
-                       aliveAtClose, openAtClose, faulted, tgt, th, tojoin, 
-                       idx >>
+                       aliveAtClose, openAtClose, faulted, userStopped, lateW, 
+                       noMore, closes, tgt, th, tojoin, idx >>
 
 mp6 == /\ pc[MainId] = "mp6"
        /\ mgrLock' = -1
@@ -344,8 +366,8 @@ mp6 == /\ pc[MainId] = "mp6"
        /\ UNCHANGED << haltLock, thrLock, go, released, halting, finished, 
                        threads, finishing, started, alive, written, sstate, 
                        terminated, badWrite, nctl, closed, playRaised, 
-                       aliveAtClose, openAtClose, faulted, tgt, th, tojoin, 
-                       idx >>
+                       aliveAtClose, openAtClose, faulted, userStopped, lateW, 
+                       noMore, closes, tgt, th, tojoin, idx >>
 
 pa1 == /\ pc[MainId] = "pa1"
        /\ (thrLock[tgt]) = -1
@@ -354,8 +376,8 @@ pa1 == /\ pc[MainId] = "pa1"
        /\ UNCHANGED << mgrLock, haltLock, go, released, halting, finished, 
                        threads, finishing, started, alive, written, sstate, 
                        terminated, badWrite, nctl, closed, playRaised, 
-                       aliveAtClose, openAtClose, faulted, tgt, th, tojoin, 
-                       idx >>
+                       aliveAtClose, openAtClose, faulted, userStopped, lateW, 
+                       noMore, closes, tgt, th, tojoin, idx >>
 
 pa2 == /\ pc[MainId] = "pa2"
        /\ go' = [go EXCEPT ![tgt] = FALSE]
@@ -363,8 +385,8 @@ pa2 == /\ pc[MainId] = "pa2"
        /\ UNCHANGED << mgrLock, haltLock, thrLock, released, halting, finished, 
                        threads, finishing, started, alive, written, sstate, 
                        terminated, badWrite, nctl, closed, playRaised, 
-                       aliveAtClose, openAtClose, faulted, tgt, th, tojoin, 
-                       idx >>
+                       aliveAtClose, openAtClose, faulted, userStopped, lateW, 
+                       noMore, closes, tgt, th, tojoin, idx >>
 
 pa3 == /\ pc[MainId] = "pa3"
        /\ thrLock' = [thrLock EXCEPT ![tgt] = -1]
@@ -372,8 +394,8 @@ pa3 == /\ pc[MainId] = "pa3"
        /\ UNCHANGED << mgrLock, haltLock, go, released, halting, finished, 
                        threads, finishing, started, alive, written, sstate, 
                        terminated, badWrite, nctl, closed, playRaised, 
-                       aliveAtClose, openAtClose, faulted, tgt, th, tojoin, 
-                       idx >>
+                       aliveAtClose, openAtClose, faulted, userStopped, lateW, 
+                       noMore, closes, tgt, th, tojoin, idx >>
 
 re1 == /\ pc[MainId] = "re1"
        /\ (thrLock[tgt]) = -1
@@ -382,8 +404,8 @@ re1 == /\ pc[MainId] = "re1"
        /\ UNCHANGED << mgrLock, haltLock, go, released, halting, finished, 
                        threads, finishing, started, alive, written, sstate, 
                        terminated, badWrite, nctl, closed, playRaised, 
-                       aliveAtClose, openAtClose, faulted, tgt, th, tojoin, 
-                       idx >>
+                       aliveAtClose, openAtClose, faulted, userStopped, lateW, 
+                       noMore, closes, tgt, th, tojoin, idx >>
 
 re2 == /\ pc[MainId] = "re2"
        /\ go' = [go EXCEPT ![tgt] = TRUE]
@@ -395,7 +417,8 @@ re2 == /\ pc[MainId] = "re2"
        /\ UNCHANGED << mgrLock, haltLock, thrLock, halting, finished, threads, 
                        finishing, started, alive, written, sstate, terminated, 
                        badWrite, nctl, closed, playRaised, aliveAtClose, 
-                       openAtClose, faulted, tgt, th, tojoin, idx >>
+                       openAtClose, faulted, userStopped, lateW, noMore, 
+                       closes, tgt, th, tojoin, idx >>
 
 re3 == /\ pc[MainId] = "re3"
        /\ thrLock' = [thrLock EXCEPT ![tgt] = -1]
@@ -403,8 +426,8 @@ re3 == /\ pc[MainId] = "re3"
        /\ UNCHANGED << mgrLock, haltLock, go, released, halting, finished, 
                        threads, finishing, started, alive, written, sstate, 
                        terminated, badWrite, nctl, closed, playRaised, 
-                       aliveAtClose, openAtClose, faulted, tgt, th, tojoin, 
-                       idx >>
+                       aliveAtClose, openAtClose, faulted, userStopped, lateW, 
+                       noMore, closes, tgt, th, tojoin, idx >>
 
 st1 == /\ pc[MainId] = "st1"
        /\ (thrLock[tgt]) = -1
@@ -413,17 +436,22 @@ st1 == /\ pc[MainId] = "st1"
        /\ UNCHANGED << mgrLock, haltLock, go, released, halting, finished, 
                        threads, finishing, started, alive, written, sstate, 
                        terminated, badWrite, nctl, closed, playRaised, 
-                       aliveAtClose, openAtClose, faulted, tgt, th, tojoin, 
-                       idx >>
+                       aliveAtClose, openAtClose, faulted, userStopped, lateW, 
+                       noMore, closes, tgt, th, tojoin, idx >>
 
 st2 == /\ pc[MainId] = "st2"
+       /\ IF ~halting[tgt]
+             THEN /\ noMore' = [noMore EXCEPT ![tgt] = pc[tgt] \in PastWrite]
+             ELSE /\ TRUE
+                  /\ UNCHANGED noMore
        /\ halting' = [halting EXCEPT ![tgt] = TRUE]
+       /\ userStopped' = [userStopped EXCEPT ![tgt] = TRUE]
        /\ pc' = [pc EXCEPT ![MainId] = "st3"]
        /\ UNCHANGED << mgrLock, haltLock, thrLock, go, released, finished, 
                        threads, finishing, started, alive, written, sstate, 
                        terminated, badWrite, nctl, closed, playRaised, 
-                       aliveAtClose, openAtClose, faulted, tgt, th, tojoin, 
-                       idx >>
+                       aliveAtClose, openAtClose, faulted, lateW, closes, tgt, 
+                       th, tojoin, idx >>
 
 st3 == /\ pc[MainId] = "st3"
        /\ IF StopWakes
@@ -438,7 +466,8 @@ st3 == /\ pc[MainId] = "st3"
        /\ UNCHANGED << mgrLock, haltLock, thrLock, halting, finished, threads, 
                        finishing, started, alive, written, sstate, terminated, 
                        badWrite, nctl, closed, playRaised, aliveAtClose, 
-                       openAtClose, faulted, tgt, th, tojoin, idx >>
+                       openAtClose, faulted, userStopped, lateW, noMore, 
+                       closes, tgt, th, tojoin, idx >>
 
 st4 == /\ pc[MainId] = "st4"
        /\ thrLock' = [thrLock EXCEPT ![tgt] = -1]
@@ -446,8 +475,8 @@ st4 == /\ pc[MainId] = "st4"
        /\ UNCHANGED << mgrLock, haltLock, go, released, halting, finished, 
                        threads, finishing, started, alive, written, sstate, 
                        terminated, badWrite, nctl, closed, playRaised, 
-                       aliveAtClose, openAtClose, faulted, tgt, th, tojoin, 
-                       idx >>
+                       aliveAtClose, openAtClose, faulted, userStopped, lateW, 
+                       noMore, closes, tgt, th, tojoin, idx >>
 
 c0 == /\ pc[MainId] = "c0"
       /\ haltLock = -1
@@ -456,7 +485,8 @@ c0 == /\ pc[MainId] = "c0"
       /\ UNCHANGED << mgrLock, thrLock, go, released, halting, finished, 
                       threads, finishing, started, alive, written, sstate, 
                       terminated, badWrite, nctl, closed, playRaised, 
-                      aliveAtClose, openAtClose, faulted, tgt, th, tojoin, idx >>
+                      aliveAtClose, openAtClose, faulted, userStopped, lateW, 
+                      noMore, closes, tgt, th, tojoin, idx >>
 
 c1 == /\ pc[MainId] = "c1"
       /\ IF ~finished
@@ -467,7 +497,8 @@ c1 == /\ pc[MainId] = "c1"
       /\ UNCHANGED << mgrLock, haltLock, thrLock, go, released, halting, 
                       threads, finishing, started, alive, written, sstate, 
                       terminated, badWrite, nctl, closed, playRaised, 
-                      aliveAtClose, openAtClose, faulted, tgt, th, tojoin, idx >>
+                      aliveAtClose, openAtClose, faulted, userStopped, lateW, 
+                      noMore, closes, tgt, th, tojoin, idx >>
 
 c2 == /\ pc[MainId] = "c2"
       /\ mgrLock = -1
@@ -476,7 +507,8 @@ c2 == /\ pc[MainId] = "c2"
       /\ UNCHANGED << haltLock, thrLock, go, released, halting, finished, 
                       threads, finishing, started, alive, written, sstate, 
                       terminated, badWrite, nctl, closed, playRaised, 
-                      aliveAtClose, openAtClose, faulted, tgt, th, tojoin, idx >>
+                      aliveAtClose, openAtClose, faulted, userStopped, lateW, 
+                      noMore, closes, tgt, th, tojoin, idx >>
 
 c3 == /\ pc[MainId] = "c3"
       /\ IF threads = <<>>
@@ -487,7 +519,8 @@ c3 == /\ pc[MainId] = "c3"
       /\ UNCHANGED << mgrLock, haltLock, thrLock, go, released, halting, 
                       finished, threads, finishing, started, alive, written, 
                       sstate, terminated, badWrite, nctl, closed, playRaised, 
-                      aliveAtClose, openAtClose, faulted, tgt, tojoin, idx >>
+                      aliveAtClose, openAtClose, faulted, userStopped, lateW, 
+                      noMore, closes, tgt, tojoin, idx >>
 
 c3r == /\ pc[MainId] = "c3r"
        /\ mgrLock' = -1
@@ -495,8 +528,8 @@ c3r == /\ pc[MainId] = "c3r"
        /\ UNCHANGED << haltLock, thrLock, go, released, halting, finished, 
                        threads, finishing, started, alive, written, sstate, 
                        terminated, badWrite, nctl, closed, playRaised, 
-                       aliveAtClose, openAtClose, faulted, tgt, th, tojoin, 
-                       idx >>
+                       aliveAtClose, openAtClose, faulted, userStopped, lateW, 
+                       noMore, closes, tgt, th, tojoin, idx >>
 
 c3s == /\ pc[MainId] = "c3s"
        /\ mgrLock' = -1
@@ -504,8 +537,8 @@ c3s == /\ pc[MainId] = "c3s"
        /\ UNCHANGED << haltLock, thrLock, go, released, halting, finished, 
                        threads, finishing, started, alive, written, sstate, 
                        terminated, badWrite, nctl, closed, playRaised, 
-                       aliveAtClose, openAtClose, faulted, tgt, th, tojoin, 
-                       idx >>
+                       aliveAtClose, openAtClose, faulted, userStopped, lateW, 
+                       noMore, closes, tgt, th, tojoin, idx >>
 
 c4 == /\ pc[MainId] = "c4"
       /\ IF ~Wait
@@ -514,7 +547,8 @@ c4 == /\ pc[MainId] = "c4"
       /\ UNCHANGED << mgrLock, haltLock, thrLock, go, released, halting, 
                       finished, threads, finishing, started, alive, written, 
                       sstate, terminated, badWrite, nctl, closed, playRaised, 
-                      aliveAtClose, openAtClose, faulted, tgt, th, tojoin, idx >>
+                      aliveAtClose, openAtClose, faulted, userStopped, lateW, 
+                      noMore, closes, tgt, th, tojoin, idx >>
 
 cs1 == /\ pc[MainId] = "cs1"
        /\ (thrLock[th]) = -1
@@ -523,17 +557,21 @@ cs1 == /\ pc[MainId] = "cs1"
        /\ UNCHANGED << mgrLock, haltLock, go, released, halting, finished, 
                        threads, finishing, started, alive, written, sstate, 
                        terminated, badWrite, nctl, closed, playRaised, 
-                       aliveAtClose, openAtClose, faulted, tgt, th, tojoin, 
-                       idx >>
+                       aliveAtClose, openAtClose, faulted, userStopped, lateW, 
+                       noMore, closes, tgt, th, tojoin, idx >>
 
 cs2 == /\ pc[MainId] = "cs2"
+       /\ IF ~halting[th]
+             THEN /\ noMore' = [noMore EXCEPT ![th] = pc[th] \in PastWrite]
+             ELSE /\ TRUE
+                  /\ UNCHANGED noMore
        /\ halting' = [halting EXCEPT ![th] = TRUE]
        /\ pc' = [pc EXCEPT ![MainId] = "cs3"]
        /\ UNCHANGED << mgrLock, haltLock, thrLock, go, released, finished, 
                        threads, finishing, started, alive, written, sstate, 
                        terminated, badWrite, nctl, closed, playRaised, 
-                       aliveAtClose, openAtClose, faulted, tgt, th, tojoin, 
-                       idx >>
+                       aliveAtClose, openAtClose, faulted, userStopped, lateW, 
+                       closes, tgt, th, tojoin, idx >>
 
 cs3 == /\ pc[MainId] = "cs3"
        /\ IF StopWakes
@@ -548,7 +586,8 @@ cs3 == /\ pc[MainId] = "cs3"
        /\ UNCHANGED << mgrLock, haltLock, thrLock, halting, finished, threads, 
                        finishing, started, alive, written, sstate, terminated, 
                        badWrite, nctl, closed, playRaised, aliveAtClose, 
-                       openAtClose, faulted, tgt, th, tojoin, idx >>
+                       openAtClose, faulted, userStopped, lateW, noMore, 
+                       closes, tgt, th, tojoin, idx >>
 
 cs4 == /\ pc[MainId] = "cs4"
        /\ thrLock' = [thrLock EXCEPT ![th] = -1]
@@ -556,8 +595,8 @@ cs4 == /\ pc[MainId] = "cs4"
        /\ UNCHANGED << mgrLock, haltLock, go, released, halting, finished, 
                        threads, finishing, started, alive, written, sstate, 
                        terminated, badWrite, nctl, closed, playRaised, 
-                       aliveAtClose, openAtClose, faulted, tgt, th, tojoin, 
-                       idx >>
+                       aliveAtClose, openAtClose, faulted, userStopped, lateW, 
+                       noMore, closes, tgt, th, tojoin, idx >>
 
 c7 == /\ pc[MainId] = "c7"
       /\ ~alive[th]
@@ -565,7 +604,8 @@ c7 == /\ pc[MainId] = "c7"
       /\ UNCHANGED << mgrLock, haltLock, thrLock, go, released, halting, 
                       finished, threads, finishing, started, alive, written, 
                       sstate, terminated, badWrite, nctl, closed, playRaised, 
-                      aliveAtClose, openAtClose, faulted, tgt, th, tojoin, idx >>
+                      aliveAtClose, openAtClose, faulted, userStopped, lateW, 
+                      noMore, closes, tgt, th, tojoin, idx >>
 
 c8 == /\ pc[MainId] = "c8"
       /\ tojoin' = IF JoinAll THEN finishing ELSE <<>>
@@ -573,7 +613,8 @@ c8 == /\ pc[MainId] = "c8"
       /\ UNCHANGED << mgrLock, haltLock, thrLock, go, released, halting, 
                       finished, threads, finishing, started, alive, written, 
                       sstate, terminated, badWrite, nctl, closed, playRaised, 
-                      aliveAtClose, openAtClose, faulted, tgt, th, idx >>
+                      aliveAtClose, openAtClose, faulted, userStopped, lateW, 
+                      noMore, closes, tgt, th, idx >>
 
 c8a == /\ pc[MainId] = "c8a"
        /\ IF tojoin # <<>>
@@ -585,7 +626,8 @@ c8a == /\ pc[MainId] = "c8a"
        /\ UNCHANGED << mgrLock, haltLock, thrLock, go, released, halting, 
                        finished, threads, finishing, started, alive, written, 
                        sstate, terminated, badWrite, nctl, closed, playRaised, 
-                       aliveAtClose, openAtClose, faulted, tgt, idx >>
+                       aliveAtClose, openAtClose, faulted, userStopped, lateW, 
+                       noMore, closes, tgt, idx >>
 
 c8j == /\ pc[MainId] = "c8j"
        /\ ~alive[th]
@@ -593,8 +635,8 @@ c8j == /\ pc[MainId] = "c8j"
        /\ UNCHANGED << mgrLock, haltLock, thrLock, go, released, halting, 
                        finished, threads, finishing, started, alive, written, 
                        sstate, terminated, badWrite, nctl, closed, playRaised, 
-                       aliveAtClose, openAtClose, faulted, tgt, th, tojoin, 
-                       idx >>
+                       aliveAtClose, openAtClose, faulted, userStopped, lateW, 
+                       noMore, closes, tgt, th, tojoin, idx >>
 
 c9 == /\ pc[MainId] = "c9"
       /\ openAtClose' = {t \in Started : sstate[t] # "closed"}
@@ -603,17 +645,20 @@ c9 == /\ pc[MainId] = "c9"
       /\ UNCHANGED << mgrLock, haltLock, thrLock, go, released, halting, 
                       finished, threads, finishing, started, alive, written, 
                       sstate, badWrite, nctl, closed, playRaised, aliveAtClose, 
-                      faulted, tgt, th, tojoin, idx >>
+                      faulted, userStopped, lateW, noMore, closes, tgt, th, 
+                      tojoin, idx >>
 
 c10 == /\ pc[MainId] = "c10"
        /\ haltLock' = -1
        /\ closed' = TRUE
+       /\ closes' = closes + 1
        /\ aliveAtClose' = {t \in Players : alive[t]}
        /\ pc' = [pc EXCEPT ![MainId] = "ap1"]
        /\ UNCHANGED << mgrLock, thrLock, go, released, halting, finished, 
                        threads, finishing, started, alive, written, sstate, 
                        terminated, badWrite, nctl, playRaised, openAtClose, 
-                       faulted, tgt, th, tojoin, idx >>
+                       faulted, userStopped, lateW, noMore, tgt, th, tojoin, 
+                       idx >>
 
 ap1 == /\ pc[MainId] = "ap1"
        /\ mgrLock = -1
@@ -622,8 +667,8 @@ ap1 == /\ pc[MainId] = "ap1"
        /\ UNCHANGED << haltLock, thrLock, go, released, halting, finished, 
                        threads, finishing, started, alive, written, sstate, 
                        terminated, badWrite, nctl, closed, playRaised, 
-                       aliveAtClose, openAtClose, faulted, tgt, th, tojoin, 
-                       idx >>
+                       aliveAtClose, openAtClose, faulted, userStopped, lateW, 
+                       noMore, closes, tgt, th, tojoin, idx >>
 
 ap2 == /\ pc[MainId] = "ap2"
        /\ IF finished
@@ -634,17 +679,19 @@ ap2 == /\ pc[MainId] = "ap2"
        /\ UNCHANGED << mgrLock, haltLock, thrLock, go, released, halting, 
                        finished, threads, finishing, started, alive, written, 
                        sstate, terminated, badWrite, nctl, closed, 
-                       aliveAtClose, openAtClose, faulted, tgt, th, tojoin, 
-                       idx >>
+                       aliveAtClose, openAtClose, faulted, userStopped, lateW, 
+                       noMore, closes, tgt, th, tojoin, idx >>
 
 ap3 == /\ pc[MainId] = "ap3"
        /\ mgrLock' = -1
-       /\ pc' = [pc EXCEPT ![MainId] = "Fin"]
+       /\ IF closes < 2
+             THEN /\ pc' = [pc EXCEPT ![MainId] = "c0"]
+             ELSE /\ pc' = [pc EXCEPT ![MainId] = "Fin"]
        /\ UNCHANGED << haltLock, thrLock, go, released, halting, finished, 
                        threads, finishing, started, alive, written, sstate, 
                        terminated, badWrite, nctl, closed, playRaised, 
-                       aliveAtClose, openAtClose, faulted, tgt, th, tojoin, 
-                       idx >>
+                       aliveAtClose, openAtClose, faulted, userStopped, lateW, 
+                       noMore, closes, tgt, th, tojoin, idx >>
 
 Fin == /\ pc[MainId] = "Fin"
        /\ TRUE
@@ -652,8 +699,8 @@ Fin == /\ pc[MainId] = "Fin"
        /\ UNCHANGED << mgrLock, haltLock, thrLock, go, released, halting, 
                        finished, threads, finishing, started, alive, written, 
                        sstate, terminated, badWrite, nctl, closed, playRaised, 
-                       aliveAtClose, openAtClose, faulted, tgt, th, tojoin, 
-                       idx >>
+                       aliveAtClose, openAtClose, faulted, userStopped, lateW, 
+                       noMore, closes, tgt, th, tojoin, idx >>
 
 Main == ctl \/ mp1 \/ mp2 \/ mpE \/ mp3 \/ mp4 \/ mp5 \/ mp6 \/ pa1 \/ pa2
            \/ pa3 \/ re1 \/ re2 \/ re3 \/ st1 \/ st2 \/ st3 \/ st4 \/ c0
@@ -668,7 +715,8 @@ p0(self) == /\ pc[self] = "p0"
                             finished, threads, finishing, started, alive, 
                             written, sstate, terminated, badWrite, nctl, 
                             closed, playRaised, aliveAtClose, openAtClose, 
-                            faulted, tgt, th, tojoin, idx >>
+                            faulted, userStopped, lateW, noMore, closes, tgt, 
+                            th, tojoin, idx >>
 
 p1(self) == /\ pc[self] = "p1"
             /\ IF idx[self] < NChunks[self]
@@ -678,7 +726,8 @@ p1(self) == /\ pc[self] = "p1"
                             finished, threads, finishing, started, alive, 
                             written, sstate, terminated, badWrite, nctl, 
                             closed, playRaised, aliveAtClose, openAtClose, 
-                            faulted, tgt, th, tojoin, idx >>
+                            faulted, userStopped, lateW, noMore, closes, tgt, 
+                            th, tojoin, idx >>
 
 p1w(self) == /\ pc[self] = "p1w"
              /\ \/ /\ idx' = [idx EXCEPT ![self] = idx[self] + 1]
@@ -686,6 +735,10 @@ p1w(self) == /\ pc[self] = "p1w"
                          THEN /\ badWrite' = TRUE
                          ELSE /\ TRUE
                               /\ UNCHANGED badWrite
+                   /\ IF halting[self]
+                         THEN /\ lateW' = [lateW EXCEPT ![self] = lateW[self] + 1]
+                         ELSE /\ TRUE
+                              /\ lateW' = lateW
                    /\ written' = [written EXCEPT ![self] = Append(written[self], idx'[self])]
                    /\ pc' = [pc EXCEPT ![self] = "p1h"]
                    /\ UNCHANGED faulted
@@ -694,11 +747,12 @@ p1w(self) == /\ pc[self] = "p1w"
                    /\ IF RunFinally
                          THEN /\ pc' = [pc EXCEPT ![self] = "p8"]
                          ELSE /\ pc' = [pc EXCEPT ![self] = "p13"]
-                   /\ UNCHANGED <<written, badWrite, idx>>
+                   /\ UNCHANGED <<written, badWrite, lateW, idx>>
              /\ UNCHANGED << mgrLock, haltLock, thrLock, go, released, halting, 
                              finished, threads, finishing, started, alive, 
                              sstate, terminated, nctl, closed, playRaised, 
-                             aliveAtClose, openAtClose, tgt, th, tojoin >>
+                             aliveAtClose, openAtClose, userStopped, noMore, 
+                             closes, tgt, th, tojoin >>
 
 p1h(self) == /\ pc[self] = "p1h"
              /\ IF StopWakes /\ halting[self]
@@ -708,7 +762,8 @@ p1h(self) == /\ pc[self] = "p1h"
                              finished, threads, finishing, started, alive, 
                              written, sstate, terminated, badWrite, nctl, 
                              closed, playRaised, aliveAtClose, openAtClose, 
-                             faulted, tgt, th, tojoin, idx >>
+                             faulted, userStopped, lateW, noMore, closes, tgt, 
+                             th, tojoin, idx >>
 
 p2(self) == /\ pc[self] = "p2"
             /\ IF go[self]
@@ -718,7 +773,8 @@ p2(self) == /\ pc[self] = "p2"
                             finished, threads, finishing, started, alive, 
                             written, sstate, terminated, badWrite, nctl, 
                             closed, playRaised, aliveAtClose, openAtClose, 
-                            faulted, tgt, th, tojoin, idx >>
+                            faulted, userStopped, lateW, noMore, closes, tgt, 
+                            th, tojoin, idx >>
 
 p3(self) == /\ pc[self] = "p3"
             /\ sstate' = [sstate EXCEPT ![self] = "stopped"]
@@ -727,7 +783,8 @@ p3(self) == /\ pc[self] = "p3"
                             finished, threads, finishing, started, alive, 
                             written, terminated, badWrite, nctl, closed, 
                             playRaised, aliveAtClose, openAtClose, faulted, 
-                            tgt, th, tojoin, idx >>
+                            userStopped, lateW, noMore, closes, tgt, th, 
+                            tojoin, idx >>
 
 p4(self) == /\ pc[self] = "p4"
             /\ IF halting[self]
@@ -737,7 +794,8 @@ p4(self) == /\ pc[self] = "p4"
                             finished, threads, finishing, started, alive, 
                             written, sstate, terminated, badWrite, nctl, 
                             closed, playRaised, aliveAtClose, openAtClose, 
-                            faulted, tgt, th, tojoin, idx >>
+                            faulted, userStopped, lateW, noMore, closes, tgt, 
+                            th, tojoin, idx >>
 
 p5(self) == /\ pc[self] = "p5"
             /\ go[self] \/ released[self]
@@ -747,7 +805,8 @@ p5(self) == /\ pc[self] = "p5"
                             threads, finishing, started, alive, written, 
                             sstate, terminated, badWrite, nctl, closed, 
                             playRaised, aliveAtClose, openAtClose, faulted, 
-                            tgt, th, tojoin, idx >>
+                            userStopped, lateW, noMore, closes, tgt, th, 
+                            tojoin, idx >>
 
 p5h(self) == /\ pc[self] = "p5h"
              /\ IF StopWakes /\ halting[self]
@@ -757,7 +816,8 @@ p5h(self) == /\ pc[self] = "p5h"
                              finished, threads, finishing, started, alive, 
                              written, sstate, terminated, badWrite, nctl, 
                              closed, playRaised, aliveAtClose, openAtClose, 
-                             faulted, tgt, th, tojoin, idx >>
+                             faulted, userStopped, lateW, noMore, closes, tgt, 
+                             th, tojoin, idx >>
 
 p6(self) == /\ pc[self] = "p6"
             /\ sstate' = [sstate EXCEPT ![self] = "open"]
@@ -766,7 +826,8 @@ p6(self) == /\ pc[self] = "p6"
                             finished, threads, finishing, started, alive, 
                             written, terminated, badWrite, nctl, closed, 
                             playRaised, aliveAtClose, openAtClose, faulted, 
-                            tgt, th, tojoin, idx >>
+                            userStopped, lateW, noMore, closes, tgt, th, 
+                            tojoin, idx >>
 
 p8(self) == /\ pc[self] = "p8"
             /\ (thrLock[self]) = -1
@@ -776,7 +837,8 @@ p8(self) == /\ pc[self] = "p8"
                             threads, finishing, started, alive, written, 
                             sstate, terminated, badWrite, nctl, closed, 
                             playRaised, aliveAtClose, openAtClose, faulted, 
-                            tgt, th, tojoin, idx >>
+                            userStopped, lateW, noMore, closes, tgt, th, 
+                            tojoin, idx >>
 
 p9(self) == /\ pc[self] = "p9"
             /\ IF \E i \in DOMAIN threads : threads[i] = self
@@ -786,7 +848,8 @@ p9(self) == /\ pc[self] = "p9"
                             finished, threads, finishing, started, alive, 
                             written, sstate, terminated, badWrite, nctl, 
                             closed, playRaised, aliveAtClose, openAtClose, 
-                            faulted, tgt, th, tojoin, idx >>
+                            faulted, userStopped, lateW, noMore, closes, tgt, 
+                            th, tojoin, idx >>
 
 p9c(self) == /\ pc[self] = "p9c"
              /\ sstate' = [sstate EXCEPT ![self] = "closed"]
@@ -795,7 +858,8 @@ p9c(self) == /\ pc[self] = "p9c"
                              finished, threads, finishing, started, alive, 
                              written, terminated, badWrite, nctl, closed, 
                              playRaised, aliveAtClose, openAtClose, faulted, 
-                             tgt, th, tojoin, idx >>
+                             userStopped, lateW, noMore, closes, tgt, th, 
+                             tojoin, idx >>
 
 p10(self) == /\ pc[self] = "p10"
              /\ mgrLock = -1
@@ -805,7 +869,8 @@ p10(self) == /\ pc[self] = "p10"
                              finished, threads, finishing, started, alive, 
                              written, sstate, terminated, badWrite, nctl, 
                              closed, playRaised, aliveAtClose, openAtClose, 
-                             faulted, tgt, th, tojoin, idx >>
+                             faulted, userStopped, lateW, noMore, closes, tgt, 
+                             th, tojoin, idx >>
 
 p11(self) == /\ pc[self] = "p11"
              /\ threads' = SelectSeq(threads, LAMBDA x : x # self)
@@ -814,7 +879,8 @@ p11(self) == /\ pc[self] = "p11"
                              finished, finishing, started, alive, written, 
                              sstate, terminated, badWrite, nctl, closed, 
                              playRaised, aliveAtClose, openAtClose, faulted, 
-                             tgt, th, tojoin, idx >>
+                             userStopped, lateW, noMore, closes, tgt, th, 
+                             tojoin, idx >>
 
 p11b(self) == /\ pc[self] = "p11b"
               /\ IF JoinAll
@@ -826,7 +892,8 @@ p11b(self) == /\ pc[self] = "p11b"
                               halting, finished, threads, started, alive, 
                               written, sstate, terminated, badWrite, nctl, 
                               closed, playRaised, aliveAtClose, openAtClose, 
-                              faulted, tgt, th, tojoin, idx >>
+                              faulted, userStopped, lateW, noMore, closes, tgt, 
+                              th, tojoin, idx >>
 
 p11r(self) == /\ pc[self] = "p11r"
               /\ mgrLock' = -1
@@ -835,7 +902,8 @@ p11r(self) == /\ pc[self] = "p11r"
                               finished, threads, finishing, started, alive, 
                               written, sstate, terminated, badWrite, nctl, 
                               closed, playRaised, aliveAtClose, openAtClose, 
-                              faulted, tgt, th, tojoin, idx >>
+                              faulted, userStopped, lateW, noMore, closes, tgt, 
+                              th, tojoin, idx >>
 
 p12(self) == /\ pc[self] = "p12"
              /\ thrLock' = [thrLock EXCEPT ![self] = -1]
@@ -844,7 +912,8 @@ p12(self) == /\ pc[self] = "p12"
                              finished, threads, finishing, started, alive, 
                              written, sstate, terminated, badWrite, nctl, 
                              closed, playRaised, aliveAtClose, openAtClose, 
-                             faulted, tgt, th, tojoin, idx >>
+                             faulted, userStopped, lateW, noMore, closes, tgt, 
+                             th, tojoin, idx >>
 
 p13(self) == /\ pc[self] = "p13"
              /\ alive' = [alive EXCEPT ![self] = FALSE]
@@ -853,7 +922,8 @@ p13(self) == /\ pc[self] = "p13"
                              finished, threads, finishing, started, written, 
                              sstate, terminated, badWrite, nctl, closed, 
                              playRaised, aliveAtClose, openAtClose, faulted, 
-                             tgt, th, tojoin, idx >>
+                             userStopped, lateW, noMore, closes, tgt, th, 
+                             tojoin, idx >>
 
 Player(self) == p0(self) \/ p1(self) \/ p1w(self) \/ p1h(self) \/ p2(self)
                    \/ p3(self) \/ p4(self) \/ p5(self) \/ p5h(self)
@@ -895,7 +965,10 @@ Prefix(s, n) == s = [i \in 1..Len(s) |-> i] /\ Len(s) <= n
 \* chunks reach the device in order, each once, nothing invented
 InOrderOnce == \A t \in Players : Prefix(written[t], NChunks[t])
 \* a player that was never stopped and has ended delivered everything
-Complete == \A t \in Players : (started[t] /\ ~alive[t] /\ ~halting[t] /\ ~faulted[t]) => Len(written[t]) = NChunks[t]
+\* (only a stop requested by the CALLER excuses missing chunks when wait is true: close() itself must not stop
+\*  players it is supposed to wait for)
+Excused(t) == faulted[t] \/ userStopped[t] \/ (~Wait /\ halting[t])
+Complete == \A t \in Players : (started[t] /\ ~alive[t] /\ ~Excused(t)) => Len(written[t]) = NChunks[t]
 NoWriteWhenNotOpen == ~badWrite
 TerminateAtMostOnce == terminated <= 1
 \* after close() has returned
@@ -904,7 +977,12 @@ TerminatedOnce     == closed => terminated = 1
 NoThreadAlive      == closed => aliveAtClose = {}
 PlayRaisesAfterClose == pc[MainId] = "Done" => playRaised
 \* wait=True waits for all audio
-WaitsForAll == (closed /\ Wait) => \A t \in Started : halting[t] \/ faulted[t] \/ Len(written[t]) = NChunks[t]
+WaitsForAll == (closed /\ Wait) => \A t \in Started : userStopped[t] \/ faulted[t] \/ Len(written[t]) = NChunks[t]
+\* close() of a closed manager does nothing
+\* a stop is prompt: the chunk being written when the stop message arrives is the last one, and a player that
+\* was past its write (testing the flags, stopping its stream, parked in wait, just woken) writes nothing more
+StopIsPrompt == StopWakes => \A t \in Players : lateW[t] <= 1 /\ (noMore[t] => lateW[t] = 0)
+SecondCloseIsNoOp == pc[MainId] = "Done" => terminated = 1
 
 \* chunk-count vectors for the configurations (cfg files cannot write tuples)
 Chunks22  == <<2, 2>>
